@@ -193,6 +193,50 @@ theorem no_poisoning (env : Env) (pf : ParseFloat) (c : Cfg) (regs : List Reg) :
     obtain ⟨r, hr, i, hi, hw, _⟩ := hdef d hd
     exact ⟨r, hr, i, hi, d, u, hw, hu, hk, hc⟩
 
+/-! ### what the variable syntax of a routing tag means -/
+
+theorem expandAux_no_dollar (m : Str → Str) : ∀ (fuel : Nat) (s : Str), '$' ∉ s → expandAux m fuel s = s := by
+  intro fuel
+  induction fuel with
+  | zero => intro s _; rfl
+  | succ n ih =>
+    intro s hs
+    cases s with
+    | nil => rfl
+    | cons c rest =>
+      have hc : (c == '$') = false := by
+        apply Bool.eq_false_iff.2
+        intro h
+        exact hs (by simp [beq_iff_eq.1 h])
+      simp only [expandAux, hc, Bool.false_and, Bool.false_eq_true, if_false]
+      rw [ih rest (fun h => hs (List.mem_cons_of_mem _ h))]
+
+/-- a host or path without `$` is taken as it is -/
+theorem expand_no_dollar (m : Str → Str) (s : Str) (h : '$' ∉ s) : expand m s = s :=
+  expandAux_no_dollar m _ s h
+
+/-- `$DC` followed by something that cannot continue a name is the datacenter -/
+theorem expand_DC (dc : Str) (rest : Str) (hr : '$' ∉ rest) (h0 : ∀ c, rest.head? = some c → isAlphaNum c = false) :
+    expand (envLookup [("DC".toList, dc)]) ("$DC".toList ++ rest) = dc ++ rest := by
+  simp only [expand]
+  show expandAux _ _ ('$' :: 'D' :: 'C' :: rest) = _
+  have hD : isAlphaNum 'D' = true := by decide
+  have hC : isAlphaNum 'C' = true := by decide
+  have hsD : isShellSpecial 'D' = false := by decide
+  cases rest with
+  | nil => simp [expandAux, getShellName, hsD, hD, hC, envLookup, List.lookup, List.takeWhile]
+  | cons c r =>
+    have hc := h0 c rfl
+    simp [expandAux, getShellName, hsD, hD, hC, hc, envLookup, List.lookup, List.takeWhile,
+      expandAux_no_dollar _ _ _ hr]
+
+/-- `${DC}` is the datacenter, whatever follows -/
+theorem expand_braced_DC (dc : Str) (rest : Str) (hr : '$' ∉ rest) :
+    expand (envLookup [("DC".toList, dc)]) ("${DC}".toList ++ rest) = dc ++ rest := by
+  simp only [expand]
+  show expandAux _ _ ('$' :: '{' :: 'D' :: 'C' :: '}' :: rest) = _
+  simp [expandAux, getShellName, envLookup, List.lookup, expandAux_no_dollar _ _ _ hr]
+
 /-! ### non-vacuity: the hypotheses are satisfiable on non-trivial values -/
 
 /-- external functions of the examples: every URL parses to itself, `glob.Compile` rejects an unclosed `[` -/
